@@ -40,6 +40,8 @@ def must_see(tier):
                   'iop:^=', 'none-operand'):
             m['%s:%s' % (impl, f)] = 10
         m[impl + ':ghost-operands'] = 20
+        m[impl + ':operand:single-child-root'] = 5
+        m[impl + ':operand:height>=3'] = 20
     return m
 
 
@@ -97,6 +99,9 @@ def run_shard(spec, rec):
         run_case(fam, impl, rng, rec, uni, vals, i)
 
 
+_EV = []      # shape events of operands, drained by run_case
+
+
 def build_operand(fam, impl, rng, uni, vals, side, form):
     """-> (obj, keys, values-dict-or-None, kind-label, has_dups)"""
     r = rng.random()
@@ -109,7 +114,18 @@ def build_operand(fam, impl, rng, uni, vals, side, form):
             kind = rng.choice(('Set', 'TreeSet'))
         if form == 'op:^' and side == 'left':
             kind = rng.choice(('Set', 'TreeSet'))
-        c, v = setops.make_container(fam, kind, impl, keys, vals, rng, None)
+        c, v = setops.make_container(fam, kind, impl, keys, vals, rng, None,
+                                         pool=uni)
+        if kind in ('BTree', 'TreeSet') and rng.random() < .25:
+            try:
+                from .. import walker
+                w_ = walker.walk(c, kind == 'BTree', check_sizes=False)
+                if w_.single_child_root:
+                    _EV.append(impl + ':operand:single-child-root')
+                if w_.height >= 3:
+                    _EV.append(impl + ':operand:height>=3')
+            except Exception:
+                pass
         return c, keys, (v if kind in ('Bucket', 'BTree') else None), kind, \
             False
     how = rng.choice(setops.ITERABLE_KINDS)
@@ -186,6 +202,8 @@ def run_case(fam, impl, rng, rec, uni, vals, i):
         return          # toggling semantics for repeated elements: skip
     if rng.random() < 0.03 and form.startswith('iop'):
         b, kb, vb, kindb, dupb = a, ka, va, kinda, False      # s op= s
+    while _EV:
+        rec.ev(_EV.pop())
     sa, sb = set(ka), set(kb)
     if form in ('fn:union', 'op:|', 'iop:|='):
         wk = sa | sb
@@ -287,11 +305,11 @@ def run_case(fam, impl, rng, rec, uni, vals, i):
         rec.violation('result-is-an-operand', **d)
         return
     # operands unchanged
-    if snap_a is not None and setops.snapshot(a) != snap_a and \
+    if snap_a is not None and not eq(setops.snapshot(a), snap_a) and \
             kinda not in ('generator',):
         rec.violation('left-operand-modified', **d)
         return
-    if snap_b is not None and setops.snapshot(b) != snap_b and \
+    if snap_b is not None and not eq(setops.snapshot(b), snap_b) and \
             kindb != 'generator':
         rec.violation('right-operand-modified', **d)
         return
